@@ -166,11 +166,33 @@ PAIRS['CYC'] = ("""<schema>
  <multisection type="ad" name="*" attribute="xs"/>
 </schema>""", {})
 
+# one base with a schema-level datatype and key type; the extender names only one of the two
+PAIRS['SCH4'] = ("""<schema extends="b.xml" keytype="identifier">
+ <key name="Kt" default="t"/>
+ <section type="t1" name="*" attribute="s1"/>
+</schema>""", """<schema keytype="identifier" datatype="vf.dtsupport.wrap">
+ <sectiontype name="t1"><key name="Ka"/></sectiontype>
+ <key name="Kb" default="b"/>
+ <key name="Kt" default="t"/>
+ <section type="t1" name="*" attribute="s1"/>
+</schema>""", {
+    'b.xml': """<schema keytype="identifier" datatype="vf.dtsupport.wrap"><sectiontype name="t1"><key name="Ka"/></sectiontype><key name="Kb" default="b"/></schema>""",
+})
+PAIRS['SCH5'] = ("""<schema extends="b.xml" datatype="vf.dtsupport.wrap2">
+ <key name="Kt" default="t"/>
+</schema>""", """<schema keytype="identifier" datatype="vf.dtsupport.wrap2">
+ <key name="Kb" default="b"/>
+ <key name="Kt" default="t"/>
+</schema>""", {
+    'b.xml': """<schema keytype="identifier" datatype="vf.dtsupport.wrap"><key name="Kb" default="b"/></schema>""",
+})
+
 PAIRS['CMP'] = ("""<schema>
  <import package="vfpk_a"/>
  <import package="vfpk_b"/>
- <import package="vfpk_a"/>
+ <import package="vfpk_a" file="component.xml"/>
  <import package="vfpk_c"/>
+ <import package="vfpk_c" file="component.xml"/>
  <sectiontype name="td" extends="tc"><key name="kd"/></sectiontype>
  <multisection type="ac" name="*" attribute="xs"/>
  <section type="td" name="*" attribute="sd"/>
